@@ -68,7 +68,7 @@ def cases(tier, rng, prefix="j", kinds=("op2", "flat", "fin", "hot", "share"), o
         maxrun = (6 if tier == "quick" else 12) if nt == 2 else (5 if tier == "quick" else 8)
         sw = 3 if nt == 2 else (2 if tier == "quick" else 3)
         scheds = ileave.schedules(nt, maxrun, sw)
-        for _ in range(60 if tier == "quick" else 1500):
+        for _ in range(60 if tier == "quick" else 800):
             scheds.append([rng.below(nt) for _ in range(40)])
         seen = set()
         for sc in scheds:
